@@ -61,10 +61,29 @@ pub struct Task {
     pub feeds: Vec<u64>,
 }
 
+/// the module is shut down at `shutdown_at` (from a message handler) and restarted at `restart_at`; the second
+/// incarnation runs `tasks` (logged as task 100 + index). Both instants lie between the millisecond grid of all
+/// timer deadlines, so nothing completes exactly at them.
+#[derive(Debug, Clone, Serialize, Deserialize, PartialEq)]
+pub struct Restart {
+    pub shutdown_at: u64,
+    pub restart_at: u64,
+    pub tasks: Vec<Task>,
+}
+
 #[derive(Debug, Clone, Serialize, Deserialize, PartialEq)]
 pub struct Case {
     /// tasks per module
     pub modules: Vec<Vec<Task>>,
+    /// per module (missing = no restart)
+    #[serde(default)]
+    pub restarts: Vec<Option<Restart>>,
+}
+
+impl Case {
+    fn restart_of(&self, module: usize) -> Option<&Restart> {
+        self.restarts.get(module).and_then(Option::as_ref)
+    }
 }
 
 #[derive(Debug, Clone, Copy, PartialEq, Eq, Serialize, Deserialize)]
@@ -182,11 +201,32 @@ struct Scripted {
     idx: usize,
     tasks: Vec<Task>,
     senders: Vec<mpsc::Sender<()>>,
+    restart: Option<Restart>,
+    incarnation: u32,
 }
 
+const CTRL: u16 = 52;
+
 impl Module for Scripted {
+    fn reset(&mut self) {
+        self.incarnation += 1;
+    }
+
     fn at_sim_start(&mut self, _: usize) {
         self.senders.clear();
+        if self.incarnation > 0 {
+            // second incarnation: fresh scripts, no feeds
+            let tasks = self.restart.as_ref().map(|r| r.tasks.clone()).unwrap_or_default();
+            for (ti, task) in tasks.iter().enumerate() {
+                let (tx, rx) = mpsc::channel(1);
+                self.senders.push(tx);
+                tokio::spawn(run_script(self.idx, 100 + ti, task.steps.clone(), rx));
+            }
+            return;
+        }
+        if let Some(r) = &self.restart {
+            schedule_at(Message::default().kind(CTRL), SimTime::from_duration(Duration::from_nanos(r.shutdown_at)));
+        }
         for (ti, task) in self.tasks.iter().enumerate() {
             let (tx, rx) = mpsc::channel(64);
             self.senders.push(tx);
@@ -194,13 +234,22 @@ impl Module for Scripted {
                 schedule_at(Message::default().kind(FEED).id(ti as u16), SimTime::from_duration(Duration::from_nanos(*f)));
             }
             let h = tokio::spawn(run_script(self.idx, ti, task.steps.clone(), rx));
-            current().join(h);
+            // tasks of a module that is shut down on purpose are cancelled, not joined
+            if self.restart.is_none() {
+                current().join(h);
+            }
         }
     }
 
     fn handle_message(&mut self, msg: Message) {
         if msg.header().kind == FEED {
-            let _ = self.senders[msg.header().id as usize].try_send(());
+            if let Some(tx) = self.senders.get(msg.header().id as usize) {
+                let _ = tx.try_send(());
+            }
+        } else if msg.header().kind == CTRL {
+            if let Some(r) = &self.restart {
+                current().shutdow_and_restart_at(SimTime::from_duration(Duration::from_nanos(r.restart_at)));
+            }
         }
     }
 }
@@ -212,8 +261,30 @@ impl Module for Scripted {
 pub fn reference(case: &Case) -> Vec<LogRec> {
     let mut out = Vec::new();
     for (mi, tasks) in case.modules.iter().enumerate() {
+        let restart = case.restart_of(mi);
         for (ti, task) in tasks.iter().enumerate() {
-            let mut now: u64 = 0;
+            let all = interpret(mi, ti, task, 0);
+            match restart {
+                // first incarnation: everything that completes before the shutdown, nothing after it
+                Some(r) => out.extend(all.into_iter().take_while(|e| e.t < r.shutdown_at)),
+                None => out.extend(all),
+            }
+        }
+        if let Some(r) = restart {
+            for (ti, task) in r.tasks.iter().enumerate() {
+                out.extend(interpret(mi, 100 + ti, task, r.restart_at));
+            }
+        }
+    }
+    out
+}
+
+/// completion instant and outcome of every step of one script started at `start`
+fn interpret(mi: usize, ti: usize, task: &Task, start: u64) -> Vec<LogRec> {
+    let mut out = Vec::new();
+    {
+        {
+            let mut now: u64 = start;
             let mut feeds = task.feeds.iter();
             // interval state: (next deadline, period, behavior)
             let mut iv: Option<(u64, u64, Behavior)> = None;
@@ -320,7 +391,8 @@ pub fn execute(case: &Case) -> Observed {
         });
         let next_wakeup = ns(st.next_wakeup);
         // a waiting timer needs a wake-up event at or before its deadline
-        let bad = earliest_live.is_some_and(|e| next_wakeup > e);
+        // (and not before the present: a wake-up time in the past means that none is pending any more)
+        let bad = earliest_live.is_some_and(|e| next_wakeup > e || next_wakeup < ns(st.now));
         if bad {
             SLOTS.with(|l| {
                 let mut l = l.borrow_mut();
@@ -333,7 +405,7 @@ pub fn execute(case: &Case) -> Observed {
     let res = vcommon::catch(|| {
         let mut sim = Sim::new(());
         for (mi, tasks) in case.modules.iter().enumerate() {
-            sim.node(format!("m{mi}"), Scripted { idx: mi, tasks: tasks.clone(), senders: Vec::new() });
+            sim.node(format!("m{mi}"), Scripted { idx: mi, tasks: tasks.clone(), senders: Vec::new(), restart: case.restart_of(mi).cloned(), incarnation: 0 });
         }
         let rt = Builder::seeded(11).quiet().build(sim.freeze());
         match rt.run() {
@@ -367,7 +439,11 @@ pub fn check(case: &Case, o: &Observed) -> Vec<Finding> {
         }
     }
     for w in &want {
-        let step = &case.modules[w.module][w.task].steps[w.step];
+        let step = if w.task >= 100 {
+            &case.restart_of(w.module).expect("restart").tasks[w.task - 100].steps[w.step]
+        } else {
+            &case.modules[w.module][w.task].steps[w.step]
+        };
         match got.get(&(w.module, w.task, w.step)) {
             None => {
                 f.push((
@@ -431,6 +507,10 @@ fn d(rng: &mut Rng) -> u64 {
 }
 
 pub fn gen_task(rng: &mut Rng, max_steps: usize) -> Task {
+    gen_task_with(rng, max_steps, true)
+}
+
+pub fn gen_task_with(rng: &mut Rng, max_steps: usize, allow_recv: bool) -> Task {
     let n = 1 + rng.usize_below(max_steps);
     let mut steps = Vec::new();
     let mut recvs = 0usize;
@@ -488,8 +568,12 @@ pub fn gen_task(rng: &mut Rng, max_steps: usize) -> Task {
                 }
             }
             _ => {
-                steps.push(Step::Recv);
-                recvs += 1;
+                if allow_recv {
+                    steps.push(Step::Recv);
+                    recvs += 1;
+                } else {
+                    steps.push(Step::Sleep(d(rng)));
+                }
             }
         }
     }
@@ -508,14 +592,23 @@ pub fn gen_task(rng: &mut Rng, max_steps: usize) -> Task {
 
 pub fn gen_case(rng: &mut Rng, max_steps: usize) -> Case {
     let modules = 1 + rng.usize_below(4);
-    Case {
-        modules: (0..modules)
-            .map(|_| {
-                let tasks = 1 + rng.usize_below(8);
-                (0..tasks).map(|_| gen_task(rng, max_steps)).collect()
-            })
-            .collect(),
+    let mut mods = Vec::new();
+    let mut restarts = Vec::new();
+    for _ in 0..modules {
+        let tasks = 1 + rng.usize_below(8);
+        if rng.chance(1, 4) {
+            // a module that is shut down and restarted while timers are pending (its scripts use no channel feeds)
+            let shutdown_at = (1 + rng.below(3000)) * MS + MS / 2;
+            let restart_at = shutdown_at + (1 + rng.below(2000)) * MS;
+            mods.push((0..tasks).map(|_| gen_task_with(rng, max_steps, false)).collect());
+            let n2 = 1 + rng.usize_below(4);
+            restarts.push(Some(Restart { shutdown_at, restart_at, tasks: (0..n2).map(|_| gen_task_with(rng, max_steps, false)).collect() }));
+        } else {
+            mods.push((0..tasks).map(|_| gen_task(rng, max_steps)).collect());
+            restarts.push(None);
+        }
     }
+    Case { modules: mods, restarts }
 }
 
 fn case_hash(c: &Case) -> u64 {
@@ -531,12 +624,12 @@ pub fn case_json(case: &Case) -> Value {
 pub fn cmd(args: &Args) -> Report {
     let mut rep = Report::new("C05");
     let mut rng = Rng::new(args.stream_seed("c05"));
-    let cases = args.cases(24_000, 500_000);
+    let cases = args.cases(384_000, 6_000_000);
     let max_steps = args.extra_u64("steps").unwrap_or(30) as usize;
     for i in 0..cases {
         let case = if i % 4 == 0 {
             // small: one module, few short tasks (the shapes that isolate a single timer interaction)
-            Case { modules: vec![(0..1 + rng.usize_below(2)).map(|_| gen_task(&mut rng, 4)).collect()] }
+            Case { modules: vec![(0..1 + rng.usize_below(2)).map(|_| gen_task(&mut rng, 4)).collect()], restarts: Vec::new() }
         } else {
             gen_case(&mut rng, max_steps)
         };
